@@ -91,6 +91,51 @@ fn repr_tag(i: u8) -> Option<saphyr::Tag> {
     Some(saphyr::Tag { handle: h.to_string(), suffix: s.to_string() })
 }
 
+thread_local! {
+    /// strings of the tree being built, as slices of shared buffers (see `with_shared_slices`)
+    static SLICES: std::cell::RefCell<Vec<(String, &'static str)>> = const { std::cell::RefCell::new(Vec::new()) };
+}
+
+fn collect_strings(n: &N, out: &mut Vec<String>) {
+    match n {
+        N::Str(s) => out.push(s.clone()),
+        N::Seq(v) => v.iter().for_each(|x| collect_strings(x, out)),
+        N::Map(m) => m.iter().for_each(|(k, v)| {
+            collect_strings(k, out);
+            collect_strings(v, out);
+        }),
+        _ => {}
+    }
+}
+
+/// Borrowed strings in real programs are slices of one buffer (the input text, a path and its
+/// parents): while `f` builds a tree, every string that is a prefix of a longer string of the same
+/// tree is handed out as a slice of that longer string — same start address, other length.
+/// A function of the tree only, so a replayed case builds the same pointers.
+fn with_shared_slices<R>(n: &N, f: impl FnOnce() -> R) -> R {
+    let mut all = vec![];
+    collect_strings(n, &mut all);
+    all.sort_by(|a, b| b.len().cmp(&a.len()).then(a.cmp(b)));
+    all.dedup();
+    let mut table: Vec<(String, &'static str)> = vec![];
+    for s in all {
+        let hit = table.iter().find(|(t, _)| t.starts_with(&s)).map(|(_, st)| &st[..s.len()]);
+        let st: &'static str = match hit {
+            Some(x) => x,
+            None => Box::leak(s.clone().into_boxed_str()),
+        };
+        table.push((s, st));
+    }
+    SLICES.with(|c| *c.borrow_mut() = table);
+    let r = f();
+    SLICES.with(|c| c.borrow_mut().clear());
+    r
+}
+
+fn borrowed_slice(s: &str) -> &'static str {
+    SLICES.with(|c| c.borrow().iter().find(|(t, _)| t == s).map(|(_, st)| *st)).unwrap_or_else(|| Box::leak(s.to_string().into_boxed_str()))
+}
+
 fn scalar_of(n: &N, owned_cow: bool) -> Option<Scalar<'static>> {
     Some(match n {
         N::Null => Scalar::Null,
@@ -102,7 +147,7 @@ fn scalar_of(n: &N, owned_cow: bool) -> Option<Scalar<'static>> {
             if owned_cow {
                 Scalar::String(Cow::Owned(s.clone()))
             } else {
-                Scalar::String(Cow::Borrowed(Box::leak(s.clone().into_boxed_str())))
+                Scalar::String(Cow::Borrowed(borrowed_slice(s)))
             }
         }
         _ => return None,
@@ -110,15 +155,22 @@ fn scalar_of(n: &N, owned_cow: bool) -> Option<Scalar<'static>> {
 }
 
 pub fn build_yaml(n: &N, owned_cow: bool) -> Yaml<'static> {
+    if !owned_cow && SLICES.with(|c| c.borrow().is_empty()) {
+        return with_shared_slices(n, || build_yaml_in(n, owned_cow));
+    }
+    build_yaml_in(n, owned_cow)
+}
+
+fn build_yaml_in(n: &N, owned_cow: bool) -> Yaml<'static> {
     match n {
         N::Repr(s) => Yaml::Representation(Cow::Owned(s.clone()), ScalarStyle::Plain, None),
         N::TaggedRepr(s, t) => Yaml::Representation(Cow::Owned(s.clone()), ScalarStyle::Plain, repr_tag(*t)),
         N::Bad => Yaml::BadValue,
-        N::Seq(v) => Yaml::Sequence(v.iter().map(|x| build_yaml(x, owned_cow)).collect()),
+        N::Seq(v) => Yaml::Sequence(v.iter().map(|x| build_yaml_in(x, owned_cow)).collect()),
         N::Map(m) => {
             let mut h = LinkedHashMap::new();
             for (k, v) in m {
-                h.insert(build_yaml(k, owned_cow), build_yaml(v, owned_cow));
+                h.insert(build_yaml_in(k, owned_cow), build_yaml_in(v, owned_cow));
             }
             Yaml::Mapping(h)
         }
@@ -144,17 +196,24 @@ pub fn build_owned(n: &N) -> YamlOwned {
 }
 
 pub fn build_marked(n: &N, owned_cow: bool, span_seed: &mut usize) -> MarkedYaml<'static> {
+    if !owned_cow && SLICES.with(|c| c.borrow().is_empty()) {
+        return with_shared_slices(n, || build_marked_in(n, owned_cow, span_seed));
+    }
+    build_marked_in(n, owned_cow, span_seed)
+}
+
+fn build_marked_in(n: &N, owned_cow: bool, span_seed: &mut usize) -> MarkedYaml<'static> {
     *span_seed += 1;
     let span = Span::new(saphyr::Marker::new(*span_seed, 1, *span_seed), saphyr::Marker::new(*span_seed + 1, 1, *span_seed + 1));
     let data = match n {
         N::Repr(s) => YamlData::Representation(Cow::Owned(s.clone()), ScalarStyle::Plain, None),
         N::TaggedRepr(s, t) => YamlData::Representation(Cow::Owned(s.clone()), ScalarStyle::Plain, repr_tag(*t)),
         N::Bad => YamlData::BadValue,
-        N::Seq(v) => YamlData::Sequence(v.iter().map(|x| build_marked(x, owned_cow, span_seed)).collect()),
+        N::Seq(v) => YamlData::Sequence(v.iter().map(|x| build_marked_in(x, owned_cow, span_seed)).collect()),
         N::Map(m) => {
             let mut h = LinkedHashMap::new();
             for (k, v) in m {
-                h.insert(build_marked(k, owned_cow, span_seed), build_marked(v, owned_cow, span_seed));
+                h.insert(build_marked_in(k, owned_cow, span_seed), build_marked_in(v, owned_cow, span_seed));
             }
             YamlData::Mapping(h)
         }
@@ -457,7 +516,7 @@ impl Property for C20P {
     }
     fn rule(&self) -> String {
         "(lookups) proptest mappings of 0..6 pairs whose keys are strings from a pool of type-like texts, integers, floats (incl. NaN \
-         payloads, +-0), null, booleans, unresolved representations (untagged, and tagged with several handle / suffix splits of the same URI), BadValue, sequences and mappings, built as Yaml (borrowed and owned \
+         payloads, +-0), null, booleans, unresolved representations (untagged, and tagged with several handle / suffix splits of the same URI), BadValue, sequences and mappings, built as Yaml (borrowed — strings that are prefixes of one another share their start address, as slices of one buffer do — and owned \
          Cow), YamlOwned, MarkedYaml and MarkedYamlOwned; probes = every key's text, its upper / lower case and padded variants, the \
          pool, generated strings and an absent string; model: found(k) iff some key is a resolved string equal to k (last such entry). \
          as_mapping_get, contains_mapping_key, Index<&str> (panic iff absent), as_mapping_get_mut, IndexMut<&str> and get(&String node) \
